@@ -617,7 +617,12 @@ func init() {
 		// bundle-add wrapping any other message
 		m := g.message()
 		ba := g.v()
-		g.add("%s=BundleAdd(%d,x0000,%d,~,[])", ba, g.edge(0xffffffff), g.c.rng.Intn(4))
+		// properties as NewBundlePropertyExperimenter() leaves them, ids set (the payload has no setter)
+		props := []string{}
+		for k := g.c.rng.Intn(3); k > 0; k-- {
+			props = append(props, fmt.Sprintf("BundlePropertyExperimenter(65535,0,%d,%d,x)", g.edge(0xffffffff), g.edge(0xffffffff)))
+		}
+		g.add("%s=BundleAdd(%d,x0000,%d,~,[%s])", ba, g.edge(0xffffffff), g.c.rng.Intn(4), strings.Join(props, ","))
 		g.add("$%s.Message=$%s", ba, m)
 		v := g.v()
 		g.add("%s=NewBundleAdd($%s)", v, ba)
